@@ -36,6 +36,29 @@ def realignStep (A : Arr) (rec : Nat → RSt → RSt) (p : Nat) (s : RSt) : RSt 
       { out := s2.out.push ⟨nd.var, lo, hi⟩, map := s2.map.insert p s2.out.size }
     | _, _ => s2   -- unreachable with sufficient fuel (the Rust loop would not terminate either)
 
+/-- `realignStep` with the state used linearly (no hidden copy of `out`/`map` while the state is
+    uniquely referenced). Compiled code uses this version (`@[csimp]`, justified by the equation
+    below); all theorems are about `realignStep`. -/
+def realignStepFast (A : Arr) (rec : Nat → RSt → RSt) (p : Nat) (s : RSt) : RSt :=
+  match s.map[p]? with
+  | some _ => s
+  | none =>
+    let nd := nodeAt A p
+    match rec nd.low (rec nd.high s) with
+    | ⟨out, map⟩ =>
+      match map[nd.low]?, map[nd.high]? with
+      | some lo, some hi =>
+        let i := out.size
+        ⟨out.push ⟨nd.var, lo, hi⟩, map.insert p i⟩
+      | _, _ => ⟨out, map⟩
+
+@[csimp] theorem realignStep_eq_fast : @realignStep = @realignStepFast := by
+  funext A rec p s
+  unfold realignStep realignStepFast
+  split
+  · rfl
+  · simp only
+
 def realignRec (A : Arr) : Nat → Nat → RSt → RSt
   | 0 => fun _ s => s
   | fuel + 1 => realignStep A (realignRec A fuel)
@@ -65,6 +88,22 @@ def nFindOrPush (s : NSt) (node : Node) : NSt × Nat :=
   | some i => (s, i)
   | none => ({ s with res := s.res.push node, nodes := s.nodes.insert node s.res.size }, s.res.size)
 
+/-- linear-use twin of `nFindOrPush` for compiled code (see `realignStepFast`) -/
+def nFindOrPushFast (s : NSt) (node : Node) : NSt × Nat :=
+  match s with
+  | ⟨res, nodes, outer, inner⟩ =>
+    match nodes[node]? with
+    | some i => (⟨res, nodes, outer, inner⟩, i)
+    | none =>
+      let i := res.size
+      (⟨res.push node, nodes.insert node i, outer, inner⟩, i)
+
+@[csimp] theorem nFindOrPush_eq_fast : @nFindOrPush = @nFindOrPushFast := by
+  funext s node
+  obtain ⟨res, nodes, outer, inner⟩ := s
+  unfold nFindOrPush nFindOrPushFast
+  simp only
+
 /-- a sub-task: terminal look-up first (`op(..).map(from_bool)`), otherwise cache / recursion -/
 def nSolve (op : Op2) (rec : Nat → Nat → NSt → NSt × Nat) (a b : Nat) (s : NSt) : NSt × Nat :=
   match op (asBool a) (asBool b) with
@@ -77,6 +116,25 @@ def innerFinish (s : NSt) (l r d lo hi : Nat) : NSt × Nat :=
   else
     let fp := nFindOrPush s ⟨d, lo, hi⟩
     ({ fp.1 with inner := fp.1.inner.insert (l, r) fp.2 }, fp.2)
+
+/-- linear-use twin of `innerFinish` for compiled code -/
+def innerFinishFast (s : NSt) (l r d lo hi : Nat) : NSt × Nat :=
+  match s with
+  | ⟨res, nodes, outer, inner⟩ =>
+    if lo = hi then (⟨res, nodes, outer, inner.insert (l, r) lo⟩, lo)
+    else
+      match nodes[(⟨d, lo, hi⟩ : Node)]? with
+      | some i => (⟨res, nodes, outer, inner.insert (l, r) i⟩, i)
+      | none =>
+        let i := res.size
+        (⟨res.push ⟨d, lo, hi⟩, nodes.insert ⟨d, lo, hi⟩ i, outer, inner.insert (l, r) i⟩, i)
+
+@[csimp] theorem innerFinish_eq_fast : @innerFinish = @innerFinishFast := by
+  funext s l r d lo hi
+  obtain ⟨res, nodes, outer, inner⟩ := s
+  unfold innerFinish innerFinishFast nFindOrPush
+  by_cases h : lo = hi <;> simp only [h, if_true, if_false]
+  split <;> rfl
 
 /-- one task of `inner_apply` (lines 93-166): both operands are pointers INTO the result array -/
 def innerStep (op : Op2) (rec : Nat → Nat → NSt → NSt × Nat) (l r : Nat) (s : NSt) : NSt × Nat :=
@@ -115,6 +173,37 @@ def nestedFinish (Γ : NCtx) (s : NSt) (l r d lo hi : Nat) : NSt × Nat :=
   else
     let fp := nFindOrPush s ⟨d, lo, hi⟩
     ({ fp.1 with outer := fp.1.outer.insert (l, r) fp.2 }, fp.2)
+
+/-- linear-use twin of `nestedFinish` for compiled code -/
+def nestedFinishFast (Γ : NCtx) (s : NSt) (l r d lo hi : Nat) : NSt × Nat :=
+  if lo = hi then
+    match s with
+    | ⟨res, nodes, outer, inner⟩ => (⟨res, nodes, outer.insert (l, r) lo, inner⟩, lo)
+  else if Γ.trigger d then
+    match innerApply Γ.inner lo hi s with
+    | (⟨res, nodes, outer, inner⟩, p) => (⟨res, nodes, outer.insert (l, r) p, inner⟩, p)
+  else
+    match s with
+    | ⟨res, nodes, outer, inner⟩ =>
+      match nodes[(⟨d, lo, hi⟩ : Node)]? with
+      | some i => (⟨res, nodes, outer.insert (l, r) i, inner⟩, i)
+      | none =>
+        let i := res.size
+        (⟨res.push ⟨d, lo, hi⟩, nodes.insert ⟨d, lo, hi⟩ i, outer.insert (l, r) i, inner⟩, i)
+
+@[csimp] theorem nestedFinish_eq_fast : @nestedFinish = @nestedFinishFast := by
+  funext Γ s l r d lo hi
+  unfold nestedFinish nestedFinishFast
+  by_cases h : lo = hi
+  · simp only [h, if_true]
+  · simp only [h, if_false]
+    by_cases ht : Γ.trigger d = true
+    · simp only [ht, if_true]
+    · simp only [ht, if_false, Bool.false_eq_true]
+      obtain ⟨res, nodes, outer, inner⟩ := s
+      unfold nFindOrPush
+      simp only
+      split <;> rfl
 
 /-- one task of the outer loop (lines 287-375); no flips -/
 def nestedStep (Γ : NCtx) (rec : Nat → Nat → NSt → NSt × Nat) (l r : Nat) (s : NSt) : NSt × Nat :=
